@@ -295,4 +295,26 @@ PROPS = {
             "checked.PacketBuilder*": 800000,
         },
     },
+    "C16": {
+        "level": "fault_enumeration",
+        "rule": "for each sampled value (20 writer types incl. IpHeaders / Ipv4Extensions / Ipv6Extensions / LinkHeader / TransportHeader, 24 reader "
+                "entry points of 17 header types, 5 length-limited readers, random PacketBuilder configurations) EVERY fault position is "
+                "injected: a writer failing at byte k for all k in 0..=n+1 in two modes (partial chunk accepted / chunk rejected), an output "
+                "slice of every length 0..=n+1 ending at a PROT_NONE page with canaries in front, a reader failing at byte k for all k up "
+                "to the bytes the decoder needs, a LimitedReader limit for all 0..=n+2 over a counting reader; evaluations = injected "
+                "faults judged; distinct = distinct (kind, type, encoded length) signatures",
+        "assumptions": COMMON_ASSUME + [
+            "the complete encoding a partial write must be a prefix of is what the same value writes into a Vec (byte-level correctness of encodings is C08's job)",
+        ],
+        "runs": {"quick": [dict(CHK)], "thorough": [dict(CHK), {"flavour": "asan", "scale": 0.3}]},
+        "abnormal_owner": "C16",
+        "mandatory": {
+            "writers.fault_surfaced": 1000000, "writers.ok_at_full_budget": 50000, "slices.space_error": 10000, "slices.ok": 2000,
+            "readers.fault_surfaced": 1000000, "readers.unaffected": 50000, "limited.len_error": 100000, "limited.ok": 20000,
+            "builder.fault_surfaced": 1000000, "builder.slices.space_error": 500000, "builder.configs": 10000,
+            "writers.multi_part_fault.IpHeaders": 10000, "writers.multi_part_fault.Ipv6Extensions": 10000,
+            "writers.multi_part_fault.Ipv4Header": 10000, "writers.multi_part_fault.TcpHeader": 10000,
+        },
+        "min_distinct": {"writers.values.*": 20, "readers.values.*": 24},
+    },
 }
